@@ -504,12 +504,22 @@ func UntrackMaps() {
 	trackMu.Unlock()
 }
 
-func trackedPtr(m interface{}) (uintptr, *Sched, *thread) {
+// trackedPtr evaluates the hooked expression (lazily: only while maps are tracked and the caller is a managed
+// thread, and under recover - the hook sits before the statement and must not dereference what the statement guards).
+func trackedPtr(f func() interface{}) (uintptr, *Sched, *thread) {
 	if atomic.LoadInt32(&nTracked) == 0 || atomic.LoadInt32(&nManaged) == 0 {
 		return 0, nil, nil
 	}
 	s, th := current()
 	if th == nil {
+		return 0, nil, nil
+	}
+	var m interface{}
+	func() {
+		defer func() { _ = recover() }()
+		m = f()
+	}()
+	if m == nil {
 		return 0, nil, nil
 	}
 	p := mapPtr(m)
@@ -527,7 +537,7 @@ func trackedPtr(m interface{}) (uintptr, *Sched, *thread) {
 
 // MapIterBegin opens an iteration over m by the calling thread; the result is
 // passed to MapIterStep (first statement of the loop body) and MapIterEnd.
-func MapIterBegin(m interface{}) uintptr {
+func MapIterBegin(m func() interface{}) uintptr {
 	p, _, th := trackedPtr(m)
 	if p == 0 {
 		return 0
@@ -576,7 +586,7 @@ func checkWriter(p uintptr, what string) {
 }
 
 // MapRead precedes a statement that reads m[k].
-func MapRead(m interface{}) {
+func MapRead(m func() interface{}) {
 	p, _, _ := trackedPtr(m)
 	if p == 0 {
 		return
@@ -586,7 +596,7 @@ func MapRead(m interface{}) {
 }
 
 // MapWriteEnd follows the statement announced by MapWrite.
-func MapWriteEnd(m interface{}) {
+func MapWriteEnd(m func() interface{}) {
 	p, _, th := trackedPtr(m)
 	if p == 0 {
 		return
@@ -615,7 +625,7 @@ func MapIterEnd(p uintptr) {
 }
 
 // MapWrite precedes a statement that assigns to or deletes from m.
-func MapWrite(m interface{}) {
+func MapWrite(m func() interface{}) {
 	p, s, th := trackedPtr(m)
 	if p == 0 {
 		return
